@@ -228,6 +228,16 @@ Theorem c02_disqualified_never_chosen : forall U fuel i pin parents st st' deps 
   get_deps fuel (new_resolver U) i pin parents st = Ok (st', deps) -> In j (st_dq st) -> ~ In j deps /\ In j (st_dq st').
 Proof. intros U fuel i pin parents st st' deps j. exact (walk_avoids_dq _ fuel i pin parents st st' deps j (proj1 (new_resolver_wf2 U))). Qed.
 Print Assumptions c02_disqualified_never_chosen.
+(* the hypotheses are satisfiable: the walk of c (package 2 of U_F7) succeeds and hands on b (package 1) as
+   disqualified; the walk of a shows the other side — b and c both returned, b disqualified only afterwards —
+   and that `selected` has grown *)
+Example c02_conflict_entries_forward_hypotheses :
+  let R := new_resolver U_F7 in
+  let st0 := {| st_dq := []; st_selected := []; st_existing := []; st_origins := [] |} in
+  get_deps 5 R 2 "" [] st0 = Ok ({| st_dq := [1]; st_selected := []; st_existing := []; st_origins := [] |}, []) /\
+  hit R (cook_str "b") 1 = true /\
+  get_deps 5 R 0 "" [] st0 = Ok ({| st_dq := [1]; st_selected := [("a", 0)]; st_existing := []; st_origins := [] |}, [1; 2]).
+Proof. vm_compute. repeat split; reflexivity. Qed.
 (* the order in which the entry of U_F7 is honoured: c expanded first, b cannot be had any more *)
 Example c02_conflict_entries_forward_example : resolve U_F7 ["c"; "b"] [] = Err /\ resolve U_F7 ["c"; "a"] [] = Err.
 Proof. exact conflict_honoured_example. Qed.
